@@ -159,3 +159,59 @@ def r_setitem(tmp, inp):
     if repr(meta_of(d)) != repr(before):
         return True, 'assignment changed metadata'
     return False, 'agrees'
+
+
+@replayer('FlowCal.io.FCSData.__array_finalize__')
+def r_finalize(tmp, inp):
+    """derived samples (copy, view, slices) carry every attribute and share no mutable metadata"""
+    import copy
+    import FlowCal
+    d = make_fcs(tmp, [[1.0, 2.0, 3.0], [4.0, 5.0, 6.0], [7.0, 8.0, 9.0]])
+    ops = {'copy': lambda x: x.copy(), 'deepcopy': copy.deepcopy, 'view': lambda x: x.view(), 'rows': lambda x: x[1:],
+           'cols': lambda x: x[:, [0, 2]], 'astype': lambda x: x.astype(float), 'ufunc': lambda x: x + 1}
+    for name, op in ops.items():
+        c = op(d)
+        for a in ('_infile', '_text', '_analysis', '_data_type', '_time_step', '_acquisition_start_time',
+                  '_acquisition_end_time', '_channels', '_amplification_type', '_detector_voltage', '_amplifier_gain',
+                  '_channel_labels', '_range', '_resolution'):
+            if not hasattr(c, a):
+                return True, '%s: attribute %s not propagated' % (name, a)
+            if name not in ('cols',) and repr(getattr(c, a)) != repr(getattr(d, a)):
+                return True, '%s: attribute %s differs' % (name, a)
+        before = (copy.deepcopy(d._range), dict(d._text))
+        c._range[0][0] = -12345.0
+        c._text['$VERIF'] = 'x'
+        if repr(d._range) != repr(before[0]) or d._text != before[1]:
+            return True, '%s: editing the derived sample\'s range/keywords changed the original' % name
+        d2 = op(d)
+        d._range[0][1] = 54321.0
+        if d2._range[0][1] == 54321.0:
+            return True, '%s: editing the original\'s range changed the derived sample' % name
+        d._range[0][1] = before[0][0][1]
+    return False, 'derived samples are independent'
+
+
+@replayer('FlowCal.io.FCSFile.__eq__')
+def r_file_eq(tmp, inp):
+    import os
+    import gen_fcs
+    import FlowCal
+    A = [[fnum(v) for v in r] for r in inp['a']]
+    B = [[fnum(v) for v in r] for r in inp['b']]
+    if not A or not B or not A[0] or not B[0]:
+        return False, 'empty matrix: not replayable through files'
+    p = os.path.join(tmp, 'f.fcs')
+    gen_fcs.write_fcs(p, A, datatype='D')
+    fa = FlowCal.io.FCSFile(p)
+    same_layout = (len(A), len(A[0])) == (len(B), len(B[0]))
+    gen_fcs.write_fcs(p, B, datatype='D')
+    fb = FlowCal.io.FCSFile(p)
+    expect = same_layout and A == B
+    got = (fa != fb) if inp.get('ne') else (fa == fb)
+    want = (not expect) if inp.get('ne') else expect
+    if not same_layout:
+        return False, 'different layouts also differ in keywords: not decisive for the events clause'
+    return bool(got) != bool(want), 'events %s: %s returned %r' % ('equal' if expect else 'differ', '!=' if inp.get('ne') else '==', got)
+
+
+REPLAYERS_ALIAS = {'FlowCal.io.FCSFile.__ne__': 'FlowCal.io.FCSFile.__eq__'}
